@@ -412,6 +412,10 @@ func (zp *ZoneParser) Next() (RR, bool) {
 			switch l, _ := zp.c.Next(); l.value {
 			case zBlank:
 				l, _ := zp.c.Next()
+				if l.err {
+					// zlexer spotted an error (e.g. an unbalanced parenthesis after the file name)
+					return zp.setParseError(l.token, l)
+				}
 				if l.value == zString {
 					name, ok := toAbsoluteName(l.token, zp.origin)
 					if !ok {
@@ -419,6 +423,8 @@ func (zp *ZoneParser) Next() (RR, bool) {
 					}
 
 					neworigin = name
+				} else if l.value != zNewline && l.value != zEOF {
+					return zp.setParseError("garbage after $INCLUDE", l)
 				}
 			case zNewline, zEOF:
 				// Ok
